@@ -150,6 +150,36 @@ def trainer_rules(prog, res):
     res.need(R2, 2)
 
 
+def epochs_within_corpus(prog, res):
+    """T11: an epoch never extends past the last d-mer: every value stored into epochs.size is `nbDmers / x` or
+    MIN(..., nbDmers), and epochs.num is derived from the stored size (so size * num <= nbDmers, the function's own assert)."""
+    R = "T11.epoch-within-corpus"
+    f = prog.fn("COVER_computeEpochs")
+    nb = [i for i, p in enumerate(f.params) if i == 1]
+    sizes = [x for b, i, x in f.events(lambda y: y.get("k") == "asg") if strip_casts(x["lhs"]).get("f") == "size"]
+    res.check(len(sizes) >= 2, R, "size-assignments", f.loc, "%d assignments to epochs.size" % len(sizes), "assignments to epochs.size vanished")
+    for x in sizes:
+        r = strip_casts(f.resolve_x(x["rhs"]))
+        ok = False
+        if r.get("k") == "bin" and r.get("op") == "/":
+            n = strip_casts(f.resolve_x(r["lhs"]))
+            ok = n.get("k") == "ref" and n.get("rk") == "p" and n.get("pi") == 1
+        elif r.get("k") == "cond" and "MIN" in r.get("m", []):
+            arms = [strip_casts(f.resolve_x(r[k])) for k in ("t", "f")]
+            ok = any(a is not None and a.get("k") == "ref" and a.get("rk") == "p" and a.get("pi") == 1 for a in arms)
+        res.check(ok, R, "size@%s" % x.get("l"), "%s:%s" % (f.file, x.get("l")), "epoch size is bounded by the number of d-mers",
+                  "COVER_computeEpochs stores an epoch size that is not bounded by nbDmers: the segment selectors index dmerAt / the samples past their end for small corpora")
+    nums = [x for b, i, x in f.events(lambda y: y.get("k") == "asg") if strip_casts(x["lhs"]).get("f") == "num"]
+    last = max(nums, key=lambda y: y.get("l", 0)) if nums else None      # the small-corpus branch is the later one in the source
+    ok = last is not None and strip_casts(f.resolve_x(last["rhs"])).get("k") == "bin" and strip_casts(f.resolve_x(last["rhs"])).get("op") == "/" \
+        and any(y.get("f") == "size" for y in f.walk_resolved(strip_casts(f.resolve_x(last["rhs"]))["rhs"]))
+    res.check(ok, R, "num=nbDmers/size", f.loc, "in the small-corpus branch the epoch count is nbDmers / size", "epoch count no longer derived from the stored size")
+    for name in ("COVER_buildDictionary", "FASTCOVER_buildDictionary"):
+        g = prog.fn(name)
+        res.check(bool(g.call_roots("COVER_computeEpochs")), R, name + ":uses-computeEpochs", g.loc, "epochs come from COVER_computeEpochs", "builder no longer uses the shared epoch computation")
+    res.need(R, 6)
+
+
 def best_rules(prog, res):
     fns = [prog.fn(n) for n in ("COVER_best_init", "COVER_best_wait", "COVER_best_destroy", "COVER_best_start", "COVER_best_finish",
                                 "ZDICT_optimizeTrainFromBuffer_cover", "ZDICT_optimizeTrainFromBuffer_fastCover", "COVER_tryParameters", "FASTCOVER_tryParameters")]
@@ -333,6 +363,7 @@ def run(tier):
     res.need("T8.trainer-guards", 60)
     finalize_rules(prog, res)
     trainer_rules(prog, res)
+    epochs_within_corpus(prog, res)
     best_rules(prog, res)
     worker_globals(prog, res)
     alloc_rules(prog, res)
